@@ -117,6 +117,29 @@ MixStreams == MixOf("sse", MixSse1) \cup MixOf("ndjson", MixNd) \cup (IF Tier = 
 
 Family == SseStreams \cup NdStreams \cup MixStreams
 
+\* ---- long streams (StreamCore "Long streams"): repetitions of short units and single very long lines whose
+\*      total passes the buffer-size thresholds decoders like to use
+Z == 122   \* fill character 'z'
+LongShapes ==
+  {[name |-> "rep-lf",       mode |-> "sse",    pre |-> Encode(RenderT(<<D(P_x), D(P_e), <<>>>>, <<"lf", "lf", "lf">>)), fill |-> Z, post |-> <<>>, long |-> FALSE],
+   [name |-> "rep-crlf",     mode |-> "sse",    pre |-> Encode(RenderT(<<E, D(P_eurox), <<>>>>, <<"crlf", "crlf", "crlf">>)), fill |-> Z, post |-> <<>>, long |-> FALSE],
+   [name |-> "rep-ndjson",   mode |-> "ndjson", pre |-> Encode(RenderT(<<J_obj>>, <<"lf">>)), fill |-> Z, post |-> <<>>, long |-> FALSE],
+   [name |-> "long-data",    mode |-> "sse",    pre |-> Encode(D(<<>>)), fill |-> Z, post |-> <<LF, LF>>, long |-> TRUE],
+   [name |-> "long-comment", mode |-> "sse",    pre |-> <<COLON, SP>>, fill |-> Z, post |-> <<LF>> \o Encode(RenderT(<<D(P_x), <<>>>>, <<"lf", "lf">>)), long |-> TRUE],
+   [name |-> "long-record",  mode |-> "ndjson", pre |-> <<34>>, fill |-> Z, post |-> <<34, CR, LF>>, long |-> TRUE]}
+LongThresholds == IF Tier = 1 THEN {4096, 65536, 262144} ELSE {4096, 8192, 65536, 262144, 1048576}
+LongSizes == {1460, 4096, 16384, 65536}
+\* which (shape, threshold) combinations: quick takes every threshold for the first SSE repetition and long-line shape
+\* and 64 Ki for the others
+LongTargets(sh) == IF Tier # 1 \/ sh.name \in {"rep-lf", "long-data"} THEN LongThresholds ELSE {65536}
+\* the stream is 1.5 times the target / is a long line of `target` fill characters (twice, so that something follows)
+LongOf(sh, t) ==
+  IF sh.long THEN [name |-> sh.name, mode |-> sh.mode, pre |-> sh.pre, fill |-> sh.fill, m |-> t, post |-> sh.post, reps |-> 2]
+  ELSE [name |-> sh.name, mode |-> sh.mode, pre |-> sh.pre, fill |-> sh.fill, m |-> 0, post |-> sh.post,
+        reps |-> ((3 * t) \div (2 * Len(sh.pre \o sh.post))) + 3]
+LongFamily == {LongOf(sh, t) : sh \in LongShapes, t \in LongThresholds} \cap UNION {{LongOf(sh, t) : t \in LongTargets(sh)} : sh \in LongShapes}
+LongTotal(L) == L.reps * (Len(L.pre) + L.m + Len(L.post))
+
 \* ---- pairs of streams consumed in one process (StreamPair.tla): events of >= 2 lines, LF and CRLF, a
 \*      multi-byte character, an unterminated last event, id:/event: fields, NDJSON next to SSE
 Sse(bs, t, e) == [mode |-> "sse", bytes |-> Encode(SseText(bs, t, e))]
